@@ -288,6 +288,145 @@ def gen_histories(ctx, thorough):
     return cases, n
 
 
+# ------------------------------------------------------------------------------- declaration path, after other parses
+# values inside declarations reach the value classes as TOKEN LISTS (not strings), and in a process that has parsed
+# other things before: the value read back must be the written one whatever ran before
+POLLUTERS = [
+    None,
+    ("MediaQuery", "screen 5"), ("MediaQuery", "print #fff"), ("MediaQuery", "screen ,"), ("MediaQuery", "all and (min-width: 5px) 7em"),
+    ("MediaList", "screen, 5px ,"), ("MediaList", "print red"),
+    ("PropertyValue", "1px )"), ("PropertyValue", "5 ;"), ("PropertyValue", "rgb(1, 2"),
+    ("DimensionValue", "5px 6px"), ("DimensionValue", "-3em ,"), ("ColorValue", "rgb(1, 2, 3, 4) #abc"), ("ColorValue", "#fff 9"),
+    ("Selector", "a b 5"), ("SelectorList", "a, , 3px"),
+    ("parseStyle", "x: 1px }"), ("parseStyle", "width: 5px; 7"), ("parseString", "a { x: 1 } 9 #fff ,"),
+    ("assign", ("5px", "-3em 4")), ("assign", ("red", "rgb(1, 2")),
+]
+ENTRIES = ["parseStyle", "parseString", "style.cssText"]
+
+
+def _pollute(pol):
+    import css_parser
+    import css_parser.css as C
+    import css_parser.stylesheets as S
+    if pol is None:
+        return
+    kind, arg = pol
+    for rx in (False, True):
+        css_parser.log.raiseExceptions = rx
+        try:
+            if kind in ("MediaQuery", "MediaList"):
+                getattr(S, kind)(arg)
+            elif kind == "parseStyle":
+                css_parser.parseStyle(arg)
+            elif kind == "parseString":
+                css_parser.parseString(arg)
+            elif kind == "assign":
+                o = (C.DimensionValue if arg[0][0].isdigit() else C.ColorValue)(arg[0])
+                o.cssText = arg[1]
+            else:
+                getattr(C, kind)(arg)
+        except Exception:  # noqa
+            pass
+    css_parser.log.raiseExceptions = True
+
+
+def _decl_items(entry, prop, text):
+    """the items of the property value of `prop: text` read through one of the declaration entry points"""
+    import css_parser
+    if entry == "parseStyle":
+        style = css_parser.parseStyle("%s: %s" % (prop, text), validate=False)
+    elif entry == "parseString":
+        sheet = css_parser.parseString("a { %s: %s }" % (prop, text), validate=False)
+        style = sheet.cssRules[0].style
+    else:
+        style = css_parser.css.CSSStyleDeclaration()
+        style.cssText = "%s: %s" % (prop, text)
+    p = style.getProperty(prop)
+    if p is None:
+        return None
+    return list(p.propertyValue)
+
+
+def impl_decl(case):
+    """(what, polluter index, entry, flag, text): `what`='num' (flag = omitLeadingZero) or 'color' (flag = minimizeColorHash).
+    Same result shape as impl_num / impl_hash, read through a declaration after the polluting calls"""
+    what, pk, entry, flag, text = case
+    cp = _setup()
+    keep = cp.log.raiseExceptions
+    try:
+        _pollute(POLLUTERS[pk])
+        cp.log.raiseExceptions = True
+        if what == "num":
+            cp.ser.prefs.omitLeadingZero = bool(flag)
+            try:
+                items = _decl_items(entry, "width", text)
+                if items is None or len(items) != 1 or type(items[0]).__name__ != "DimensionValue":
+                    return {"err": "declaration value is %s" % (None if items is None else [
+                        (type(x).__name__, x.cssText) for x in items],)}
+                d = items[0]
+                out = {"sign": d._sign, "val": fnum(d.value), "unit": d.dimension or "", "type": d.type}
+                try:
+                    out["ser"] = d.cssText
+                except Exception as e:  # noqa
+                    out["ser_exc"] = type(e).__name__
+                    return out
+                _pollute(POLLUTERS[pk])
+                cp.log.raiseExceptions = True
+                it2 = _decl_items(entry, "width", out["ser"])
+                if it2 is None or len(it2) != 1 or type(it2[0]).__name__ != "DimensionValue":
+                    out["second"] = None
+                else:
+                    d2 = it2[0]
+                    out["second"] = {"sign": d2._sign, "val": fnum(d2.value), "unit": d2.dimension or "", "type": d2.type}
+                return out
+            except Exception as e:  # noqa
+                return {"err": type(e).__name__}
+        else:
+            cp.ser.prefs.minimizeColorHash = bool(flag)
+            try:
+                items = _decl_items(entry, "color", text)
+            except Exception as e:  # noqa
+                return {"err": type(e).__name__}
+            if items is None:
+                return {"invalid": True}
+            if len(items) != 1 or type(items[0]).__name__ != "ColorValue":
+                return {"nocolor": True, "items": [(type(x).__name__, x.cssText) for x in items]}
+            out = {"rgba": _color_tuple(items[0]), "ser": items[0].cssText, "ctype": items[0].colorType}
+            try:
+                _pollute(POLLUTERS[pk])
+                cp.log.raiseExceptions = True
+                it2 = _decl_items(entry, "color", out["ser"])
+                out["rgba2"] = _color_tuple(it2[0]) if it2 and len(it2) == 1 and type(it2[0]).__name__ == "ColorValue" else None
+            except Exception:  # noqa
+                out["rgba2"] = None
+            return out
+    finally:
+        cp.log.raiseExceptions = keep
+        cp.ser.prefs.omitLeadingZero = False
+        cp.ser.prefs.minimizeColorHash = True
+
+
+def gen_decl(ctx, thorough, lex, esc, hashes, fns):
+    """a sample of the number / colour grids x entry point x polluter"""
+    rng = ctx.rng
+    nums = [l for l in lex if l[1] in ("", "0", "5", "09") and (l[2] is None or len(l[2]) <= 2 or l[2] in SPECIAL_FRACS[:6])]
+    nums = rng.sample(nums, min(len(nums), 1500 if thorough else 350)) + \
+        [("", "1", None, "px", "px"), ("", "", "5", "cm", "cm"), ("-", "0", "25", "%", "%"), ("+", "12", "5", "", "")]
+    nums += rng.sample([l for l in esc if (l[3], l[4]) not in ESC_UNITS_NEEDED], 60)
+    cols = rng.sample(hashes, 150) + ["#123456", "#fff", "#AbC"]
+    names = ["red", "Wheat", "TRANSPARENT", "rebeccapurple"]
+    cfns = [f for f in fns if is_css3_function(f)]
+    cfns = rng.sample(cfns, min(len(cfns), 120))
+    cases = []
+    for k, l in enumerate(nums):
+        for pk in range(len(POLLUTERS)):
+            cases.append(("num", pk, ENTRIES[(k + pk) % 3], (k + pk) % 2, l))
+    for k, c in enumerate(cols + names + cfns):
+        for pk in range(len(POLLUTERS)):
+            cases.append(("color", pk, ENTRIES[(k + pk) % 3], (k + pk) % 2, c))
+    return cases
+
+
 # ------------------------------------------------------------------------------- model side (decoding)
 def bits(x):
     return int(x, 2)
@@ -476,10 +615,58 @@ def gen_numbers(ctx, thorough):
         lex.append(("", "9" * z, "5", "px", "px"))
         lex.append(("-", "1" + "0" * z, None, "em", "em"))
     esc = []
-    for utext, umean in ESC_UNITS_SAFE + ESC_UNITS_NEEDED:
-        for sg, ip, fp in (("", "1", None), ("-", "1", "5"), ("+", "", "25"), ("", "0", None)):
+    safe = list(ESC_UNITS_SAFE) + hex_respellings(rng, 400 if thorough else 120)
+    for utext, umean in safe + ESC_UNITS_NEEDED:
+        for sg, ip, fp in (("", "1", None), ("-", "1", "5"), ("+", "", "25"), ("", "0", None), ("", "0", "0")):
             esc.append((sg, ip, fp, utext, umean))
     return lex, n_grid, esc
+
+
+TERMINATORS = [" ", "\t", "\n", "\r\n", "\r", "\f"]
+RESPELL_UNITS = ["px", "PX", "em", "Em", "kHz", "deg", "x", "ms", "cm", "rem", "vw", "q", "dpcm"]
+
+
+def hex_escape(ch, ndig, upper, term):
+    h = ("%x" % ord(ch)).zfill(ndig)
+    return "\\" + (h.upper() if upper else h) + term
+
+
+def respell(unit, which, ndig, upper, term):
+    """spell the characters of `unit` selected by `which` with a hex escape (C10 HexRespelling: 1-6 hex digits of
+    either case, leading zeros, optional terminator; no terminator only after 6 digits, at the end of the token, or in
+    front of a character that is neither a hex digit nor white space)"""
+    out = []
+    for k, ch in enumerate(unit):
+        if k in which:
+            nxt = unit[k + 1] if k + 1 < len(unit) and (k + 1) not in which else None
+            tm = term
+            if tm == "" and ndig < 6 and nxt is not None and nxt in "0123456789abcdefABCDEF":
+                tm = " "
+            out.append(hex_escape(ch, max(ndig, len("%x" % ord(ch))), upper, tm))
+        else:
+            out.append(ch)
+    return "".join(out)
+
+
+def hex_respellings(rng, nrandom):
+    """(spelling, meaning) pairs: units whose LETTERS are written with unicode escapes: legal respellings, the value
+    must report the resolved, lower-cased unit"""
+    out = []
+    for u in RESPELL_UNITS:
+        for which in ({0}, {len(u) - 1}, set(range(len(u)))):
+            for ndig, upper, term in ((1, False, " "), (6, False, ""), (6, True, " "), (2, True, "\t"), (4, False, "\n"),
+                                      (3, False, "\r\n"), (2, False, "\f"), (2, False, ""), (5, True, "\r")):
+                out.append((respell(u, which, ndig, upper, term), u))
+    for _ in range(nrandom):
+        u = rng.choice(RESPELL_UNITS)
+        which = {k for k in range(len(u)) if rng.random() < 0.5} or {0}
+        out.append((respell(u, which, rng.randint(1, 6), rng.random() < 0.5, rng.choice(TERMINATORS + ["", ""])), u))
+    seen, res = set(), []
+    for sp, u in out:
+        if sp not in seen and sp != u:
+            seen.add(sp)
+            res.append((sp, u))
+    return res
 
 
 def lex_text(l):
@@ -701,6 +888,14 @@ def check_witness(ctx, w):
         return oracle_hash(w["text"], impl_hash((w["mz"], w["text"])))
     if w["kind"] == "name":
         return oracle_name(w["text"], impl_color(w["text"]), css3_table())
+    if w["kind"] == "declaration":
+        i = impl_decl((w["what"], w["pk"], w["entry"], w["flag"], w["text"]))
+        x = w["item"]
+        if w["what"] == "num":
+            return oracle_num(tuple(x), i)
+        if isinstance(x, str):
+            return oracle_hash(x, i) if x.startswith("#") else oracle_name(x, i, css3_table())
+        return oracle_fn((x[0], [tuple(a) for a in x[1]], x[2]), i)[0]
     if w["kind"] == "history":
         r = oracle_history(impl_history((w["obj"], w["raise"], w["olz"], w["texts"])))
         return r[1] if r else None
@@ -772,7 +967,7 @@ def run(ctx):
             nontrivial.add(lex_text(l))
         d = oracle_num(l, i)
         if d:
-            fam = "escaped-unit: " if l[3] != l[4] else ""
+            fam = "escaped-unit: " if (l[3], l[4]) in ESC_UNITS_NEEDED else ""
             if not ctx.violation(fam + d, witness_num(olz, l), sig_text=json.dumps(lex_text(l))):
                 skipped_known += 1
     stats["number_cases"] = len(allc)
@@ -943,6 +1138,30 @@ def run(ctx):
     stats["history_cases"] = len(hist)
     stats["history_steps_leaving_the_state_unchanged"] = n_rejected
 
+    # ---- 7. the declaration path (token-list input: parseStyle / parseString / style.cssText) after polluting calls
+    dcases = gen_decl(ctx, thorough, lex, esc, hashes, fns)
+    dwire = [(c[0], c[1], c[2], c[3], lex_text(c[4]) if c[0] == "num" else (c[4] if isinstance(c[4], str) else fn_text(c[4])))
+             for c in dcases]
+    dres = ctx.pool_map(impl_decl, dwire, procs=6, chunksize=128)
+    for c, wire, i in zip(dcases, dwire, dres):
+        what, pk, entry, flag, x = c
+        if what == "num":
+            d = oracle_num(x, i)
+        elif isinstance(x, str) and x.startswith("#"):
+            d = oracle_hash(x, i)
+        elif isinstance(x, str):
+            d = oracle_name(x, i, table)
+        else:
+            d, _ = oracle_fn(x, i)
+        if d:
+            w = {"kind": "declaration", "what": what, "polluter": list(POLLUTERS[pk]) if POLLUTERS[pk] else None, "pk": pk,
+                 "entry": entry, "flag": flag, "text": wire[4],
+                 "item": list(x) if what == "num" else (x if isinstance(x, str) else [x[0], [list(a) for a in x[1]], x[2]])}
+            fam = "escaped-unit: " if what == "num" and (x[3], x[4]) in ESC_UNITS_NEEDED else ""
+            ctx.violation("%sread through %s%s: %s" % (fam, entry, " after %s(%r)" % tuple(POLLUTERS[pk]) if POLLUTERS[pk] else "", d),
+                          w, sig_text=json.dumps(wire[4]))
+    stats["declaration_path_cases"] = len(dcases)
+
     if mism:
         ctx.broken("correspondence", "Numbers.v / Colors.v vs css_parser",
                    "%d cases differ; first: %s" % (len(mism), json.dumps(mism[:4], default=str)))
@@ -954,7 +1173,7 @@ def run(ctx):
             w = f["witness"]
             d = check_witness(ctx, w)
             if d:
-                fam = "escaped-unit: " if w["kind"] == "number" and w["lexeme"][3] != w["lexeme"][4] else ""
+                fam = "escaped-unit: " if w["kind"] == "number" and (w["lexeme"][3], w["lexeme"][4]) in ESC_UNITS_NEEDED else ""
                 ctx.violation(fam + d, w, sig_text=json.dumps(w.get("text")))
 
     def search():
@@ -999,7 +1218,7 @@ def run(ctx):
                     return {"kind": "name", "text": n, "fails": d}
         return None
 
-    total = len(allc) + len(splits) + len(hcases) + len(names) + len(fns) + len(hist)
+    total = len(allc) + len(splits) + len(hcases) + len(names) + len(fns) + len(hist) + len(dcases)
     ctx.finish({
         "evaluations": total,
         "distinct_nontrivial": len(nontrivial),
@@ -1014,9 +1233,13 @@ def run(ctx):
                 "wrong-kind arguments. histories: every (first text x second text x raiseExceptions x omitLeadingZero) over the "
                 "DimensionValue / ColorValue / PropertyValue lists (second texts: out of range with another sign/unit/kind, "
                 "too many digits, syntax errors, wrong arity/kind, and accepted ones) plus random histories of 3-6 "
-                "assignments on one object; after every step cssText must parse back to what the object reports. non-trivial = distinct number lexemes whose cssText differs from the source text"
+                "assignments on one object; after every step cssText must parse back to what the object reports. declaration "
+                "path: a sample of the number / hash / name / function grids read through parseStyle, parseString and "
+                "style.cssText (token-list input) after each of %d polluting calls (MediaQuery/MediaList/PropertyValue/"
+                "value classes/selectors/parse* with trailing content, rejected assignments), judged by the same oracles. "
+                "units: also %d spellings with hex-escaped letters (every C10 HexRespelling form). non-trivial = distinct number lexemes whose cssText differs from the source text"
                 % (7 if thorough else 4, "" if thorough else ", 400 sampled longer patterns", len(UNITS),
-                   5 if thorough else 4, "".join(alpha)),
+                   5 if thorough else 4, "".join(alpha), len(POLLUTERS) - 1, len(hex_respellings(ctx.rng.__class__(0), 0))),
         "samples": [[o, lex_text(l)] for o, l in cases[1001:1004]] + [hashes[5000], fn_text(fns[40]), names[7]],
         "disagreements_checked": total if binary else 0,
         "distribution": stats,
